@@ -324,7 +324,7 @@ fn get_xref_info(
     let mut root = None;
 
     let mut cursorset = BTreeSet::new(); // to prevent infinite loops
-    let mut idset = BTreeSet::new(); // to keep newest entries
+    let mut idset = BTreeSet::new(); // to keep newest entries (per object number)
 
     let mut next = pb.get_cursor();
     loop {
@@ -370,7 +370,10 @@ fn get_xref_info(
         }
         // add entries
         for e in ents {
-            let id = (e.val().obj(), e.val().gen());
+            // An object number has at most one live generation: a newer
+            // entry (in-use or free) for a number supersedes all older
+            // entries for that number, whatever their generation.
+            let id = e.val().obj();
             if idset.insert(id) {
                 // This is the newest version of the object.
                 xrefs.push(e)
